@@ -251,6 +251,38 @@ func checkC04(e *Env) {
 		}
 	})
 
+	// histories in one process: identical arguments, almost identical ones, and the same
+	// concatenation split at another place — a memo keyed imperfectly would answer from memory
+	nh := e.pick(24, 300)
+	parallel(nh, e.Workers, func(h int) {
+		g := &seqGen{e: e, r: rng.New(e.Seed, "C04-hist-"+itoa(h)), bufs: map[int][]byte{}}
+		g.memoHunt(3)
+		var ops []plan.Op
+		for _, op := range g.ops {
+			if op.Fn == "seed" {
+				op.I, op.Keep = len(ops), false
+				ops = append(ops, op)
+			}
+		}
+		res, died := e.RunProc(drv, ops, nil, 0)
+		if died != "" {
+			e.Violate(&Violation{What: "MnemonicToSeed killed the process in a sequence of calls: " + oneLine(died, 300), Ops: ops[:min(len(res)+1, len(ops))]})
+			return
+		}
+		for i := range res {
+			want, ok := e.RefSeed(ops[i].Str(), ops[i].Pass())
+			if !ok || res[i].Panic != "" {
+				continue
+			}
+			stat.Inc("seeds_inside_histories")
+			if res[i].Out != hx(want) {
+				e.Violate(&Violation{What: fmt.Sprintf("after earlier calls in the same process MnemonicToSeed(%s, %s) = %s, expected %x: the result depends on the history", preview(ops[i].Str()), preview(ops[i].Pass()), res[i].Out, want),
+					Ops: ops[:i+1], Expected: map[string]string{"out_hex": hx(want)}, Observed: res[i], Detail: "the failing call is the last of ops; the preceding ones are its history"})
+				return
+			}
+		}
+	})
+
 	// known-finding witnesses (D3): exact inputs listed in KNOWN_FINDINGS.txt
 	for _, f := range e.KnownKeys() {
 		kv := parseKey(f.Key)
@@ -281,7 +313,7 @@ func checkC04(e *Env) {
 	e.WriteEvidence("exploration", map[string]any{
 		"evaluations":               stats.Ops,
 		"distinct_nontrivial":       dist.Len(),
-		"rule":                      "a case is a pair (mnemonic, passphrase) of valid-UTF-8 strings over CPython-assigned code points with non-starter runs <= 25: empty/ASCII, valid and invalid mnemonics of all ten languages, lengths around and far beyond the 128-byte HMAC block for either argument, NFC/NFD/NFKC/NFKD spellings, compatibility characters, mark sequences in non-canonical order, arguments beginning with combining marks, Hangul syllables/jamo, seeded random strings (80 % decomposing or combining code points); every case is compared with PBKDF2 written out over crypto/hmac with CPython's NFKD; one case in eight also observes freshness (two calls, second result clobbered, first re-read, backing arrays compared); distinct = distinct (mnemonic, passphrase)",
+		"rule":                      "a case is a pair (mnemonic, passphrase) of valid-UTF-8 strings over CPython-assigned code points with non-starter runs <= 25: empty/ASCII, valid and invalid mnemonics of all ten languages, lengths around and far beyond the 128-byte HMAC block for either argument, NFC/NFD/NFKC/NFKD spellings, compatibility characters, mark sequences in non-canonical order, arguments beginning with combining marks, Hangul syllables/jamo, seeded random strings (80 % decomposing or combining code points); every case is compared with PBKDF2 written out over crypto/hmac with CPython's NFKD; histories of seed calls in one process (identical arguments, almost identical ones, the same concatenation split at another place between mnemonic and passphrase); one case in eight also observes freshness (two calls, second result clobbered, first re-read, backing arrays compared); distinct = distinct (mnemonic, passphrase)",
 		"samples":                   smp.List(),
 		"cases_by_class":            classes.Map(),
 		"observations":              stat.Map(),
